@@ -61,11 +61,17 @@ def assembly_groups(rng, n_cases):
 
 def run(tier, seed, build):
     rng = random.Random(seed + 11)
-    extra, _ = assembly_groups(rng, 2 if tier == "quick" else 20)
-    extra += bay_groups(rng, 2 if tier == "quick" else 12)
+    extra, crashes = [], []
+    for fn, n in ((assembly_groups, 2 if tier == "quick" else 20), (bay_groups, 2 if tier == "quick" else 12)):
+        try:
+            res = fn(rng, n)
+            extra += res[0] if isinstance(res, tuple) else res
+        except Exception as ex:          # the real code raised while recovering a field: that is a verdict, not a crash
+            crashes.append(("%s: field recovery raised %s: %s" % (fn.__name__, type(ex).__name__, str(ex)[:200]),
+                            dict(where=fn.__name__)))
     return panelmat.run_prop("C11", ["uvw", "strain", "stress"], tier, seed, build,
                              what="the Ritz series / Donnell kinematics the specification evaluates",
-                             extra_observed=extra)
+                             extra_observed=extra, extra_violations=crashes)
 
 
 ANGLES = {0.0: [0, 1], 90.0: [1, 0], 45.0: [1, 1], -45.0: [-1, 1]}
@@ -143,3 +149,7 @@ def bay_groups(rng, n_cases):
                 record(pdp, off, res, xs2, ys2, "stiffener %d %s" % (si, region))
                 off += pan.get_size()
     return out
+
+
+def replay(path, build):
+    return panelmat.replay_file("C11", path, build)
